@@ -35,6 +35,23 @@ size_t LogSize();
 const std::vector<LogOp>& Log();
 uint64_t OpsFromOtherThreads();
 
+/** Arm on a directory tree that already exists (e.g. a crash image): the tree is imported as a synthetic, fully durable log
+ *  prefix (MKDIR / CREATE / WRITE / SYNC per entry, in sorted path order), so that Materialize() of a later cut reproduces the files
+ *  that were there before. Returns the log size after the import: crash windows must start at or after it. */
+size_t ArmAdopt(const std::string& root);
+
+/** The recorder keeps one log. To record a nested scenario (the restart on a crash image) while the outer log is still needed,
+ *  move the outer log out and back in. Only while disarmed. */
+struct SavedLog {
+    std::string root;
+    std::vector<LogOp> log;
+    std::vector<std::pair<std::string, uint32_t>> names;
+    uint32_t next_ino{1};
+    uint64_t other_thread_ops{0};
+};
+SavedLog TakeLog();
+void RestoreLog(SavedLog&& s);
+
 /** Inject an error: the n-th (0-based, counted from now) recorded operation of the given class fails. */
 enum class FaultKind { NONE, ENOSPC_WRITE, EIO_WRITE, EIO_SYNC, SHORT_WRITE, ENOSPC_FALLOC };
 void SetFault(FaultKind kind, uint64_t after_ops);
